@@ -46,7 +46,7 @@ def recursion_cache():
                 return cell.cell_contents
         except ValueError:
             pass
-    raise RuntimeError("DynamicRecursionCache of path_instances_of_class not found")
+    return None      # refactored away: the driver then cannot clear / inspect it (reported as None)
 
 
 class World:
@@ -56,9 +56,9 @@ class World:
         self.priors = {}
         self.pid_of = {}
         for pid, lo, hi in sorted(case["priors"]):
-            p = af.UniformPrior(lower_limit=float(lo), upper_limit=float(hi))
+            p = af.UniformPrior(lower_limit=float(lo), upper_limit=float(hi), id_=pid)
+            assert p.id == pid
             self.priors[pid] = p
-            self.pid_of[p.id] = pid
         self.objs = []
         self.keep = []
 
@@ -90,7 +90,7 @@ class World:
 
     def leaf(self, x):
         if isinstance(x, Prior):
-            return ["p", self.pid_of.get(x.id, -1)]
+            return ["p", int(x.id)]          # priors are named by their CURRENT id
         if isinstance(x, bool):
             return ["x", "bool"]
         if isinstance(x, float):
@@ -182,6 +182,10 @@ class World:
             return self.inst(m.instance_from_vector([float(x) for x in q[1]]))
         if k == "info":
             return self.info(m)
+        if k == "unit":
+            return self.inst(m.instance_from_unit_vector([x / 4.0 for x in q[1]]))
+        if k == "allpaths":
+            return [[list(p) for p in g] for g in m.all_paths]
         if k == "models":
             cls = object if q[1] is None else self.classes[q[1]]
             return [[[], self.leaf(x)] for x in m.models_with_type(cls, include_zero_dimension=bool(q[2]))]
@@ -215,6 +219,7 @@ class World:
                 obj = Collection([self.val(v) for _, v in attrs]) if nitems > 0 else Collection(**kw)
             else:
                 obj = TuplePrior(**kw)
+            obj.id = 1000 + len(self.objs)        # ModelObject.id, fixed by the harness (Model.v: oidn)
             self.objs.append(obj)
             extra["attrs"] = self.abstract_attrs(obj)
             return None, extra
@@ -244,6 +249,11 @@ class World:
                             for o in self.objs[first:]]
         elif k == "failwalk":
             obj.has_instance("not-a-type")
+        elif k == "derive":
+            try:
+                self.keep.append(obj.mapper_from_prior_arguments({p: p for p in obj.priors}))
+            finally:
+                extra["flags"] = [bool(getattr(o, "_is_frozen", False)) for o in self.objs]
         else:
             raise ValueError(k)
         return None, extra
@@ -251,7 +261,8 @@ class World:
 
 def run_case(case):
     rc = recursion_cache()
-    rc.cache.clear()
+    if rc is not None:
+        rc.cache.clear()
     w = World(case)
     outs = []
     for op in case["ops"]:
@@ -263,13 +274,17 @@ def run_case(case):
         except BaseException as e:  # noqa
             rec["exc"] = exc_name(e)
             rec["msg"] = str(e)[:160]
+            if op[0] == "derive":
+                rec["flags"] = [bool(getattr(o, "_is_frozen", False)) for o in w.objs]
         if op[0] == "query":
             rec["shadow"] = w.shadow(w.objs[op[1]], op[2])
         outs.append(rec)
     frozen = [bool(getattr(o, "_is_frozen", False)) for o in w.objs]
     comp = [w.abstract_attrs(o) for o in w.objs]
-    left = len(rc.cache)
-    rc.cache.clear()
+    left = None
+    if rc is not None:
+        left = len(rc.cache)
+        rc.cache.clear()
     return {"outs": outs, "frozen": frozen, "comp": comp, "stale_recursion_entries": left}
 
 
